@@ -124,6 +124,70 @@ theorem infer_models_flatten (opts : IOpts) (fuel : Nat) (T : GoTypeE) (st : Sto
   cases hid
   exact hm
 
+/-! ### the hypotheses of `infer_soundE_partial` are satisfiable (labelled tests)
+
+  `tagLookup` splits the tag with `String.splitOn`, which the kernel does not evaluate; what the tag parser returns
+  for each tag is a hypothesis here (the parser is specified in C16: `fieldJSONInfo_named`, `fieldJSONInfo_no_tag`). -/
+
+/-- an exported, non-embedded field -/
+def fld (g tag : String) (t : GoTypeE) : FieldE GoTypeE :=
+  { goName := g, tag := tag, exported := true, embedded := false, type := t }
+/-- an exported embedded field -/
+def emb (g tag : String) (t : GoTypeE) : FieldE GoTypeE :=
+  { goName := g, tag := tag, exported := true, embedded := true, type := t }
+
+/-- `struct{ Inner; A int "json:\"a\"" }` with `type Inner struct { X int "json:\"x\""; Y string "json:\"y,omitempty\"" }` -/
+def embedValT (tI tX tY tA : String) : GoTypeE :=
+  .struct [emb "Inner" tI (.named "Inner" (.struct [fld "X" tX (.basic "Int"), fld "Y" tY (.basic "String")])),
+           fld "A" tA (.basic "Int")]
+
+section WitnessesE
+open EncJsonEmb
+variable (tI tX tY tA : String)
+  (hI : tagLookup "json" tI = none)                                        -- the embedded field has no json tag
+  (hX : fieldJSONInfo "X" tX = { name := "x" }) (hY : fieldJSONInfo "Y" tY = { name := "y", omitempty := true })
+  (hA : fieldJSONInfo "A" tA = { name := "a" })
+include hI hX hY hA
+
+theorem embedVal_inDomain : InDomainE (embedValT tI tX tY tA) = true := by
+  have v1 : validTagName "x" = true := by decide
+  have v2 : validTagName "y" = true := by decide
+  have v3 : validTagName "a" = true := by decide
+  have d1 : "Int" ∈ domainKinds := by decide
+  have d2 : "String" ∈ domainKinds := by decide
+  simp [embedValT, fld, emb, InDomainE, inDomainFieldsE, inDomainEmbE, namesOk, pairOk, live, jsonNameOf, allFields, embFields,
+    hI, hX, hY, hA, fieldTagOk, v1, v2, v3, d1, d2]
+
+/-- the value `{Inner: {X: 1, Y: ""}, A: 2}` -/
+theorem embedVal_hasType : HasTypeE (embedValT tI tX tY tA) (.struct [.struct [.int 1, .str ""], .int 2]) := by
+  have hIo := (fieldJSONInfo_untagged (g := "Inner") (tag := tI) (by rw [hI]; rfl))
+  simp [embedValT, fld, emb, HasTypeE, HasTypeFieldsE, HasTypeEmbE, classify, isStructE, derefE, hIo.1, hIo.2, hX, hY, hA,
+    basicHasType, intRange]
+  exact ⟨⟨_, _, ⟨rfl, rfl⟩, by decide, by decide⟩, ⟨_, _, ⟨rfl, rfl⟩, by decide, by decide⟩⟩
+
+/-- `infer_soundE_partial` applied: the value marshals to `{"x":1,"a":2}` (`y` is empty and omitempty), which the
+    inferred schema accepts -/
+example (id : NodeId) (st' : Store) (h : forTypeE {} 3 (embedValT tI tX tY tA) #[] = .ok (some id, st')) :
+    Spec.valid (specEnvNoRefs st') 4 id (.obj [("x", .num 1), ("a", .num 2)]) = some true := by
+  have hIo := (fieldJSONInfo_untagged (g := "Inner") (tag := tI) (by rw [hI]; rfl))
+  have := infer_soundE_partial {} 3 _ #[] id st' (fun _ _ => false) rfl (fun _ => rfl)
+    (embedVal_inDomain tI tX tY tA hI hX hY hA) h _ (embedVal_hasType tI tX tY tA hI hX hY hA) 4
+    (by simp [embedValT, fld, emb, depthE, depthFieldsE])
+  simpa [embedValT, fld, emb, encodeE, encodeFieldsE, encodeEmbE, candidates, embCandidates, classify, mkTField, isDominant,
+    dominates, isStructE, derefE, hIo.1, hIo.2, hX, hY, hA, fieldSkipped, isEmptyValue] using this
+
+end WitnessesE
+
+/-- outside the domain (known finding D14): in `struct{ Y string "json:\"x\""; Inner }` the JSON name `x` belongs to
+    two Go names -/
+example (tI tX tY tY' : String)
+    (hX : fieldJSONInfo "X" tX = { name := "x" }) (hY : fieldJSONInfo "Y" tY = { name := "y", omitempty := true })
+    (hY' : fieldJSONInfo "Y" tY' = { name := "x" }) :
+    EncJsonEmb.InDomainE (.struct [fld "Y" tY' (.basic "String"),
+      emb "Inner" tI (.named "Inner" (.struct [fld "X" tX (.basic "Int"), fld "Y" tY (.basic "String")]))]) = false := by
+  simp [fld, emb, EncJsonEmb.InDomainE, EncJsonEmb.namesOk, EncJsonEmb.pairOk, EncJsonEmb.live, EncJsonEmb.jsonNameOf,
+    allFields, embFields, hX, hY, hY']
+
 /-! ## what the hypotheses exclude (labelled tests) -/
 
 /-- `opts.nullForSlices = true` is needed: with `JSONSCHEMAGODEBUG=typeschemasnull=1` the schema of `[]int8` is
